@@ -87,8 +87,30 @@ func (c *Ctx) short(t types.Type) string {
 }
 
 // U0 checks the soundness preconditions of the analyses over library scope.
+// libFieldStores: every value stored into a struct field anywhere in the library (field-based flow for values that
+// travel through a struct of the library's own, e.g. a helper object replacing captured variables).
+var libFieldStores map[*types.Var][]ssa.Value
+
+func (c *Ctx) indexFieldStores() {
+	libFieldStores = map[*types.Var][]ssa.Value{}
+	for _, fn := range c.P.LibFuncs {
+		for _, b := range fn.Blocks {
+			for _, in := range b.Instrs {
+				if st, ok := in.(*ssa.Store); ok {
+					if fa, ok := st.Addr.(*ssa.FieldAddr); ok {
+						if fv := fieldVar(fa); fv != nil {
+							libFieldStores[fv] = append(libFieldStores[fv], st.Val)
+						}
+					}
+				}
+			}
+		}
+	}
+}
+
 func (c *Ctx) U0() {
 	const rule = "U0 analysis-preconditions"
+	c.indexFieldStores()
 	c.R.Rule(rule, "library scope imports neither unsafe nor reflect, has no go statement, no select, no channel operation; no library package imports a generated test-double package", 1)
 	bad := 0
 	for _, k := range c.P.LibKeys() {
